@@ -247,20 +247,20 @@ func runC27(c *core.Ctx) {
 		ok := false
 		for _, o := range core.ResultOrigins(fn, 0) {
 			call, isCall := o.(*ssa.Call)
-			if !isCall || core.CalleeName(&call.Call) != "(*math/big.Int).Add" {
+			if !isCall || core.CalleeName(core.NormCall(&call.Call)) != "(*math/big.Int).Add" {
 				continue
 			}
-			a, b := call.Call.Args[1], call.Call.Args[2]
+			a, b := core.NormCall(&call.Call).Args[1], core.NormCall(&call.Call).Args[2]
 			isCD := func(v ssa.Value) bool {
 				cc, ok := core.Unwrap(v).(*ssa.Call)
-				return ok && cc.Call.IsInvoke() && cc.Call.Method.Name() == "CommissionData" && core.Path(cc.Call.Args[0]) == "price"
+				return ok && cc.Call.IsInvoke() && cc.Call.Method.Name() == "CommissionData" && core.Path(core.NormCall(&cc.Call).Args[0]) == "price"
 			}
 			isBytes := func(v ssa.Value) bool {
 				cc, ok := core.Unwrap(v).(*ssa.Call)
-				if !ok || core.CalleeName(&cc.Call) != "(*math/big.Int).Mul" {
+				if !ok || core.CalleeName(core.NormCall(&cc.Call)) != "(*math/big.Int).Mul" {
 					return false
 				}
-				x, y := cc.Call.Args[1], cc.Call.Args[2]
+				x, y := core.NormCall(&cc.Call).Args[1], core.NormCall(&cc.Call).Args[2]
 				isLen := func(v ssa.Value) bool { return strings.Contains(core.Path(v), "payloadAndServiceDataLen()") }
 				isPB := func(v ssa.Value) bool { n, f := isPriceField(v); return f && n == "PayloadByte" }
 				return (isLen(x) && isPB(y)) || (isLen(y) && isPB(x))
@@ -283,8 +283,8 @@ func runC27(c *core.Ctx) {
 	if fn := c.MustFn("C27.formula", "(*coreV2/transaction.Transaction).MulGasPrice"); fn != nil {
 		ok := false
 		for _, o := range core.ResultOrigins(fn, 0) {
-			if call, isCall := o.(*ssa.Call); isCall && core.CalleeName(&call.Call) == "(*math/big.Int).Mul" {
-				px, py := core.Path(call.Call.Args[1]), core.Path(call.Call.Args[2])
+			if call, isCall := o.(*ssa.Call); isCall && core.CalleeName(core.NormCall(&call.Call)) == "(*math/big.Int).Mul" {
+				px, py := core.Path(core.NormCall(&call.Call).Args[1]), core.Path(core.NormCall(&call.Call).Args[2])
 				if (strings.Contains(px, "tx.GasPrice") && py == "price") || (strings.Contains(py, "tx.GasPrice") && px == "price") {
 					ok = true
 				}
@@ -307,14 +307,14 @@ func runC27(c *core.Ctx) {
 			switch x := o.(type) {
 			case *ssa.Call:
 				p := core.Path(x)
-				if strings.HasSuffix(core.CalleeName(&x.Call), ".MulGasPrice") && strings.Contains(p, ".Price(") && strings.Contains(p, "GetCommissions()") {
+				if strings.HasSuffix(core.CalleeName(core.NormCall(&x.Call)), ".MulGasPrice") && strings.Contains(p, ".Price(") && strings.Contains(p, "GetCommissions()") {
 					kinds = append(kinds, "MulGasPrice(tx.Price(GetCommissions()))")
 				} else {
 					okAll = false
-					kinds = append(kinds, "call:"+core.CalleeName(&x.Call))
+					kinds = append(kinds, "call:"+core.CalleeName(core.NormCall(&x.Call)))
 				}
 			case *ssa.Extract:
-				if call, ok := x.Tuple.(*ssa.Call); ok && strings.HasSuffix(core.CalleeName(&call.Call), ".CheckSwap") && x.Index == 1 {
+				if call, ok := x.Tuple.(*ssa.Call); ok && strings.HasSuffix(core.CalleeName(core.NormCall(&call.Call)), ".CheckSwap") && x.Index == 1 {
 					// conversion: its input must be the same MulGasPrice value and it must sit under !Coin.IsBaseCoin()
 					conv := false
 					for _, f := range c.FactsAt(call, 0) {
@@ -373,7 +373,7 @@ func runC27(c *core.Ctx) {
 	c.Check(typeGate, "C27.burn", "RunTx/ticker-fee/only-create", sub.Pos(), "burn happens only for TypeCreateCoin / TypeCreateToken", "the ticker-fee burn is not restricted to coin/token creation")
 	okSrc := false
 	for _, o := range core.Origins(sub.Arg(1)) {
-		if call, ok := o.(*ssa.Call); ok && strings.HasSuffix(core.CalleeName(&call.Call), ".MulGasPrice") && strings.Contains(core.Path(call), "PayForSymbol(") {
+		if call, ok := o.(*ssa.Call); ok && strings.HasSuffix(core.CalleeName(core.NormCall(&call.Call)), ".MulGasPrice") && strings.Contains(core.Path(call), "PayForSymbol(") {
 			okSrc = true
 		}
 	}
@@ -603,7 +603,7 @@ func checkGasPriceBeforeConversion(c *core.Ctx, rule string) {
 	}
 	isMul := func(v ssa.Value) bool {
 		call, ok := core.Unwrap(v).(*ssa.Call)
-		return ok && strings.HasSuffix(core.CalleeName(&call.Call), ".MulGasPrice")
+		return ok && strings.HasSuffix(core.CalleeName(core.NormCall(&call.Call)), ".MulGasPrice")
 	}
 	isConversion := func(s *core.Site) bool {
 		if !strings.HasSuffix(s.Callee, "transaction.CheckSwap") || len(s.Common.Args) < 4 {
@@ -641,7 +641,7 @@ func checkGasPriceBeforeConversion(c *core.Ctx, rule string) {
 				return false
 			}
 			call, ok := ex.Tuple.(*ssa.Call)
-			return ok && strings.HasSuffix(core.CalleeName(&call.Call), "transaction.CheckSwap")
+			return ok && strings.HasSuffix(core.CalleeName(core.NormCall(&call.Call)), "transaction.CheckSwap")
 		})
 		c.Check(!afterConv, rule, fmt.Sprintf("RunTx/MulGasPrice#%d", k), s.Pos(), "the gas price multiplies an amount of the price table, not a converted one",
 			"tx.MulGasPrice is applied to an amount that already went through the pool conversion: gasPrice × sell(x) instead of sell(gasPrice × x)")
